@@ -327,6 +327,8 @@ def background(eng):
         bg.append((("pmod",), f))
     for f in TH.bnot_axioms():
         bg.append((("bnot",), f))
+    for f in TH.rdiv_axioms():
+        bg.append((("rdiv",), f))
     for f in LM.rsum_axioms():
         bg.append((("rsum",), f))
     from . import streams
